@@ -142,6 +142,8 @@ type Config struct {
 	FP       bool
 	Go123    bool // channel-timer semantics of go1.23+ (Stop/Reset discard a pending tick)
 	RandMenu func(n int64) []int64
+	RandLog  *[]int64 // every drawn value is appended here
+	NoTick   bool     // the clock does not advance on reads (sequential harnesses that merge states)
 	Sites    bool
 }
 
@@ -704,6 +706,9 @@ func RandChoice(n int64) int64 {
 		k = r.choose(len(menu), nil, true, 0)
 	}
 	t.hb = mix(t.hb, uint64(menu[k]), 0xD1CE)
+	if r.cfg.RandLog != nil {
+		*r.cfg.RandLog = append(*r.cfg.RandLog, menu[k])
+	}
 	if r.cfg.Trace {
 		r.tracef("T%d(%s) rand(%d)=%d", t.ID, t.Name, n, menu[k])
 		r.thashAdd(uint64(menu[k]) + 1977)
